@@ -24,7 +24,7 @@ for p in props:
     })
 m = {
     "version": 1,
-    "setup_cmd": "cd /verif/zncheck && GOFLAGS=-mod=mod GOPROXY=off GOSUMDB=off GOTOOLCHAIN=local GOWORK=off go build -o /verif/bin/zncheck . && cd /verif/selftest/alpharename && GOFLAGS=-mod=mod GOPROXY=off GOSUMDB=off GOTOOLCHAIN=local GOWORK=off go build -o /verif/bin/alpharename .",
+    "setup_cmd": "cd /verif/zncheck && GOFLAGS=-mod=mod GOPROXY=off GOSUMDB=off GOTOOLCHAIN=local GOWORK=off go build -o /verif/bin/zncheck . && cd /verif/selftest/alpharename && GOFLAGS=-mod=mod GOPROXY=off GOSUMDB=off GOTOOLCHAIN=local GOWORK=off go build -o /verif/bin/alpharename . && cd /verif/selftest/tailsplit && GOFLAGS=-mod=mod GOPROXY=off GOSUMDB=off GOTOOLCHAIN=local GOWORK=off go build -o /verif/bin/tailsplit .",
     "hooks": {
         "guard": "verif",
         "enable": "no source hooks are needed: the checker reads /repo's working tree (go/packages, go/ssa) and never builds instrumented code",
